@@ -2,6 +2,7 @@
 # usage: merge_branch.sh Cxx branch
 p=$1; b=$2
 cd /verif
+if [ -f .git/MERGE_HEAD ]; then echo "a merge is in progress: finish it first"; exit 2; fi
 git merge --no-ff -m "merge $b" $b > /tmp/merge_$p.log 2>&1
 if grep -qi conflict /tmp/merge_$p.log; then
   python3 tools/resolve_merge.py $p $b > /dev/null
